@@ -443,7 +443,8 @@ Definition ph2 (ls : list text) (st1 : fstate) (m : mapping) : fstate * list eve
     (mkF (f_line st1 + 1) 0 (f_active st1) (f_orig st1),
      if f_line st1 <=? len ls then
        match line_at ls (f_line st1) with
-       | Some line => [EChunk (Some (substring line (f_col st1) None)) (unmapped (f_line st1) (f_col st1))]
+       | Some line => let chunk := substring line (f_col st1) None in
+                      if is_nil chunk then [] else [EChunk (Some chunk) (unmapped (f_line st1) (f_col st1))]
        | None => []
        end
      else [])
@@ -459,7 +460,8 @@ Definition ph4 (ls : list text) (st3 : fstate) (m : mapping) : fstate * list eve
     (mkF (f_line st3) (g_col m) (f_active st3) (f_orig st3),
      if f_line st3 <=? len ls then
        match line_at ls (f_line st3) with
-       | Some line => [EChunk (Some (substring line (f_col st3) (Some (g_col m)))) (unmapped (f_line st3) (f_col st3))]
+       | Some line => let chunk := substring line (f_col st3) (Some (g_col m)) in
+                      if is_nil chunk then [] else [EChunk (Some chunk) (unmapped (f_line st3) (f_col st3))]
        | None => []
        end
      else [])
@@ -473,8 +475,8 @@ Definition ph5 (fl fc : N) (st4 : fstate) (m : mapping) : fstate :=
   | None => st4
   end.
 
-Lemma sm_full_step_eq ls fl fc st m :
-  sm_full_step ls fl fc st m =
+Lemma sm_full_step_body_eq ls fl fc st m :
+  sm_full_step_body ls fl fc st m =
   let '(st1, ev1) := ph1 ls st m in
   let '(st2, ev2) := ph2 ls st1 m in
   let '(st3, ev3) := ph3 ls st2 m in
@@ -482,10 +484,54 @@ Lemma sm_full_step_eq ls fl fc st m :
   (ph5 fl fc st4 m, ev1 ++ ev2 ++ ev3 ++ ev4).
 Proof. reflexivity. Qed.
 
+(* the guard of the fixed on_mapping: the mapping lies before the current position *)
+Definition step_guard (st : fstate) (m : mapping) : bool :=
+  (g_line m <? f_line st) || ((g_line m =? f_line st) && (g_col m <? f_col st)).
+
+Lemma sm_full_step_eq ls fl fc st m :
+  sm_full_step ls fl fc st m =
+  if step_guard st m then (st, [])
+  else
+    let '(st1, ev1) := ph1 ls st m in
+    let '(st2, ev2) := ph2 ls st1 m in
+    let '(st3, ev3) := ph3 ls st2 m in
+    let '(st4, ev4) := ph4 ls st3 m in
+    (ph5 fl fc st4 m, ev1 ++ ev2 ++ ev3 ++ ev4).
+Proof. reflexivity. Qed.
+
 Definition ple (a b : N * N) : Prop := fst a < fst b \/ (fst a = fst b /\ snd a <= snd b).
 Definition plt (a b : N * N) : Prop := fst a < fst b \/ (fst a = fst b /\ snd a < snd b).
 Definition fpos (st : fstate) : N * N := (f_line st, f_col st).
 Definition mpos (m : mapping) : N * N := (g_line m, g_col m).
+
+Lemma step_guard_false st m : step_guard st m = false <-> ple (fpos st) (mpos m).
+Proof.
+  unfold step_guard, ple, fpos, mpos. cbn [fst snd]. split.
+  - intros H. apply orb_false_iff in H. destruct H as [H1 H2]. apply N.ltb_ge in H1.
+    apply andb_false_iff in H2. destruct H2 as [H2|H2]; [apply N.eqb_neq in H2|apply N.ltb_ge in H2]; lia.
+  - intros H. apply orb_false_iff. split; [apply N.ltb_ge; lia|].
+    destruct (g_line m =? f_line st) eqn:E; [|reflexivity]. apply N.eqb_eq in E.
+    cbn [andb]. apply N.ltb_ge. lia.
+Qed.
+
+Lemma step_guard_true st m : step_guard st m = true <-> ~ ple (fpos st) (mpos m).
+Proof.
+  rewrite <- step_guard_false. destruct (step_guard st m); split; intros H.
+  - discriminate.
+  - reflexivity.
+  - discriminate.
+  - exfalso. apply H. reflexivity.
+Qed.
+
+(* a mapping at or after the current position is processed *)
+Lemma sm_full_step_in_order ls fl fc st m :
+  step_guard st m = false -> sm_full_step ls fl fc st m = sm_full_step_body ls fl fc st m.
+Proof. intros H. unfold sm_full_step. fold (step_guard st m). rewrite H. reflexivity. Qed.
+
+(* a mapping before the current position is ignored *)
+Lemma sm_full_step_skip ls fl fc st m :
+  step_guard st m = true -> sm_full_step ls fl fc st m = (st, []).
+Proof. intros H. unfold sm_full_step. fold (step_guard st m). rewrite H. reflexivity. Qed.
 
 Section Step.
 Variable ls : list text.
@@ -501,7 +547,12 @@ Proof.
   - cbn [fst snd f_line f_col f_active]. split; [rewrite Hl; reflexivity|]. split; [reflexivity|].
     destruct (f_line st <=? len ls) eqn:En.
     + apply N.leb_le in En. destruct (line_at_exists ls (f_line st) H1 En) as [line Hline].
-      rewrite Hline, <- Hl. apply tiles_one_part; [exact SOK|exact Hline|exact Hc|rewrite Hl; exact HV].
+      rewrite Hline, <- Hl. cbv zeta.
+      destruct (is_nil (substring line (f_col st) (Some (g_col m)))) eqn:Enil.
+      * apply is_nil_true in Enil.
+        apply (T_part0 ls V (f_line st) (f_col st) (g_col m) line);
+          [exact SOK|exact Hline|exact Hc|rewrite Hl; exact HV|exact Enil|apply T_nil].
+      * apply tiles_one_part; [exact SOK|exact Hline|exact Hc|rewrite Hl; exact HV].
     + apply N.leb_gt in En. apply tiles_jump; cbn [fst]; lia.
   - apply N.ltb_ge in E. cbn [fst snd]. assert (Hcc : f_col st = g_col m) by lia.
     rewrite Hl, Hcc. split; [reflexivity|]. split; [reflexivity|apply T_nil].
@@ -532,7 +583,10 @@ Proof.
     split; [reflexivity|].
     destruct (f_line st <=? len ls) eqn:En.
     + apply N.leb_le in En. destruct (line_at_exists ls (f_line st) H1 En) as [line Hline].
-      rewrite Hline. apply tiles_one_rest; [exact SOK|exact Hline].
+      rewrite Hline. cbv zeta. destruct (is_nil (substring line (f_col st) None)) eqn:Enil.
+      * apply is_nil_true in Enil.
+        apply (T_rest0 ls V (f_line st) (f_col st) line); [exact SOK|exact Hline|exact Enil|apply T_nil].
+      * apply tiles_one_rest; [exact SOK|exact Hline].
     + apply N.leb_gt in En. apply tiles_jump; cbn [fst]; lia.
   - apply N.ltb_ge in E. cbn [fst snd]. split; [exact H1|]. split; [lia|]. split; [lia|].
     split; [reflexivity|apply T_nil].
@@ -623,7 +677,7 @@ Lemma step_spec st m :
   tiles ls V (snd (sm_full_step ls fl fc st m)) (fpos st) (mpos m).
 Proof.
   intros HI Hle HV. pose proof (Inv_active_le st HI) as Hact. destruct HI as [H1 _].
-  rewrite sm_full_step_eq.
+  rewrite sm_full_step_in_order by (apply step_guard_false; exact Hle). rewrite sm_full_step_body_eq.
   pose proof (ph1_spec st m H1 Hact Hle HV) as [A1 [A2 [A3 A4]]].
   destruct (ph1 ls st m) as [st1 ev1]. cbn [fst snd] in *.
   pose proof (ph24_spec st1 m A1 A2 HV) as [B1 [B2 B3]]. unfold ph24 in B1, B2, B3.
@@ -675,21 +729,8 @@ Lemma inert_step st :
   len ls <= fl -> f_active st = false -> ~ ple (fpos st) (fl, fc) ->
   snd (sm_full_step ls fl fc st (unmapped fl fc)) = [].
 Proof.
-  intros Hn Ha Hnle. unfold ple, fpos in Hnle. cbn [fst snd] in Hnle.
-  assert (E1 : ph1 ls st (unmapped fl fc) = (st, [])).
-  { unfold ph1. rewrite Ha. reflexivity. }
-  assert (E2 : ph2 ls st (unmapped fl fc) = (st, [])).
-  { unfold ph2. cbn [unmapped g_line g_col].
-    replace (f_line st <? fl) with false by (symmetry; apply N.ltb_ge; lia). reflexivity. }
-  assert (E3 : ph3 ls st (unmapped fl fc) = (st, [])).
-  { unfold ph3. cbn [unmapped g_line g_col].
-    replace (f_line st <? fl) with false by (symmetry; apply N.ltb_ge; lia). reflexivity. }
-  assert (E4 : snd (ph4 ls st (unmapped fl fc)) = []).
-  { unfold ph4. cbn [unmapped g_line g_col]. destruct (f_col st <? fc) eqn:E; [|reflexivity].
-    apply N.ltb_lt in E. replace (f_line st <=? len ls) with false by (symmetry; apply N.leb_gt; lia).
-    reflexivity. }
-  rewrite sm_full_step_eq, E1, E2, E3. destruct (ph4 ls st (unmapped fl fc)) as [st4 ev4].
-  cbn [fst snd app] in *. exact E4.
+  intros Hn Ha Hnle. rewrite sm_full_step_skip; [reflexivity|].
+  apply step_guard_true. exact Hnle.
 Qed.
 
 End Step.
@@ -769,7 +810,7 @@ Proof.
   - assert (Ha : f_active st = false).
     { destruct (f_active st) eqn:Ea; [|reflexivity]. destruct A1 as [_ A1]. specialize (A1 Ea).
       exfalso. apply Hnle. unfold plt in A1. unfold ple. lia. }
-    rewrite (inert_step ls fl fc Hend st Hn Ha Hnle), app_nil_r. exists (fpos st). split; [exact A2|].
+    rewrite (inert_step ls fl fc st Hn Ha Hnle), app_nil_r. exists (fpos st). split; [exact A2|].
     apply (prefix_end ls fl fc); [exact He|]. intros Hlt. apply Hnle. unfold plt in Hlt. unfold ple. lia.
 Qed.
 
@@ -1306,13 +1347,17 @@ Qed.
 (* ------------------------------------------------------------------ *)
 Definition cex_map (s : text) : smap := mkSmap None s [] [] [] None None.
 
-(* "ab\nc" with mappings "K;A" = segments (1,5) and (2,0): sorted, ASCII, reassembles,
-   but the empty chunk closing line 1 is reported at (1,5) while the text is at (2,0) *)
-Example cex_full_positions :
+(* FIXED by skipping empty unmapped chunks (phases 2 and 4 of sm_full_step_body).
+   "ab\nc" with mappings "K;A" = segments (1,5) and (2,0): sorted, ASCII, reassembles; the empty
+   chunk closing line 1 used to be reported at (1,5) while the text is at (2,0) (the stream was
+   not well positioned); it is no longer emitted *)
+Example fixed_full_positions :
   let t := [97; 98; 10; 99] in let m := cex_map [75; 59; 65] in
   (ascii t, sorted_by pos_le (decode_mappings (sm_mappings m)),
    reassembles (fst (sm_stream_full t m)) t,
-   well_positioned (chunks_of (fst (sm_stream_full t m))) 1 0) = (true, true, true, false).
+   chunk_texts (fst (sm_stream_full t m)),
+   well_positioned (chunks_of (fst (sm_stream_full t m))) 1 0)
+  = (true, true, true, [Some [97; 98; 10]; Some [99]], true).
 Proof. vm_compute. reflexivity. Qed.
 
 (* a text starting with a continuation byte (not valid UTF-8), mappings "C" = segment (1,1) *)
@@ -1322,15 +1367,27 @@ Example cex_full_reassembles :
   = (true, false).
 Proof. vm_compute. reflexivity. Qed.
 
-(* why sortedness is assumed: "abcdef" with mappings "GAAA,F,G" = segments (1,3) mapped,
-   (1,1), (1,4); the backward segment (1,1) closes the active mapping with an empty chunk and
-   moves the position back, so "bc" is emitted twice: "abc" "bcd" "ef" *)
-Example cex_full_unsorted :
+(* known finding K4, FIXED by the guard of sm_full_step (a mapping before the current position
+   is ignored).  "abcdef" with mappings "GAAA,F,G" = segments (1,3) mapped, (1,1), (1,4): the
+   backward segment (1,1) used to close the active mapping with an empty chunk and move the
+   position back, so that "bc" was emitted twice ("abc" "bcd" "ef"); it is now skipped.
+   The general statement is Proofs/StreamMapAny.v. *)
+Example fixed_full_unsorted :
   let t := [97; 98; 99; 100; 101; 102] in
   let m := mkSmap None [71; 65; 65; 65; 44; 70; 44; 71] [[120]] [] [] None None in
   (ascii t, sorted_by pos_le (decode_mappings (sm_mappings m)),
    chunk_texts (fst (sm_stream_full t m)), reassembles (fst (sm_stream_full t m)) t)
-  = (true, false, [Some [97; 98; 99]; Some [98; 99; 100]; Some [101; 102]], false).
+  = (true, false, [Some [97; 98; 99]; Some [100]; Some [101; 102]], true).
+Proof. vm_compute. reflexivity. Qed.
+
+(* the witness of K4 as recorded on the implementation: "abcdefgh" with mappings "IAAA,HAAE" =
+   segments (1,4) and (1,1), both mapped; the old splitter emitted "abcd" "bcdefgh" *)
+Example fixed_full_K4 :
+  let t := [97; 98; 99; 100; 101; 102; 103; 104] in
+  let m := mkSmap None [73; 65; 65; 65; 44; 72; 65; 65; 69] [[120]] [] [] None None in
+  (ascii t, sorted_by pos_le (decode_mappings (sm_mappings m)),
+   chunk_texts (fst (sm_stream_full t m)), reassembles (fst (sm_stream_full t m)) t)
+  = (true, false, [Some [97; 98; 99; 100]; Some [101; 102; 103; 104]], true).
 Proof. vm_compute. reflexivity. Qed.
 
 Print Assumptions sm_stream_full_reassembles_partial.
